@@ -15,7 +15,7 @@ def run(tier):
                       "catalogue concurrently and their id logs + output hashes are validated by ObjIdsTrace. A negative "
                       "control (output depending on id parity) must be refuted by TLC.")
     ck.assumptions = ["the object counter is the only state shared between compilations (fetch_add is atomic)",
-                      "catalogue: mock graphs needing duplication/space assignment, a GSUB of 24 equal lookups that needs extension promotion, cmap, name, FontBuilder; one thread compiling until > 150 000 ids are used "
+                      "catalogue: mock graphs needing duplication/space assignment, a GSUB of 24 equal lookups that needs extension promotion, cmap, name, FontBuilder; one thread compiling until > 150 000 ids are used; klippa subsetting of every corpus font repeated and on four threads "
                       "(GPOS/gvar/IVS/klippa values are exercised for determinism inside C16/C10/C11/C17's own checks)",
                       "hash-seed independence is sampled by repeated compilations in one process (fresh RandomState per map) "
                       "and, in the thorough tier, by fresh processes"]
@@ -32,6 +32,9 @@ def run(tier):
     ck.cov["parts"]["tlc:negative-control"] = {"refuted": True, "error": neg.error}
     res = vlib.run_harness("fv-write", ["c07", "gaps", "--gaps", r.out])
     ck.add_harness("replay:gaps", res)
+    # the subsetter: one request per corpus font, repeated and on four threads at once
+    res = vlib.run_harness("fv-subset", ["c17", "determinism", "--out", os.path.join(wd, "subset_det.ndjson")], timeout=3000)
+    ck.add_harness("replay:subset-determinism", res, traces=False)
     # one thread, > 150 000 object ids (thorough 600 000): the counter moves far, the bytes must not
     res = vlib.run_harness("fv-write", ["c07", "longrun", "--ids", 150000 if tier == "quick" else 600000], timeout=3000)
     ck.add_harness("replay:longrun", res)
